@@ -54,6 +54,38 @@ def run(tier, seed):
         evals += rep2["evaluations"]
         distinct += rep2["distinct"]
         samples += rep2["samples"][:1]
+    # ---- node level: every path of Listener.tla against the listener of a real running node
+    r7 = common.tlc("network", "MC_Listener", cfg="MC_Listener.cfg", workers=1, timeout=600)
+    if not r7.ok:
+        raise common.ToolError("Listener.tla fails on the specification:\n" + r7.out[-1500:])
+    lcases = r7.printed("CASE")
+    cp7 = os.path.join(d, "listener_cases.ndjson")
+    common.write_ndjson(cp7, lcases)
+    rp7 = os.path.join(d, "listener_report.json")
+    for f_ in (rp7, rp7 + ".current"):
+        if os.path.exists(f_):
+            os.remove(f_)
+    rc, so, se = common.run_bin("node_fuzz", [cp7, rp7, seed, 6 if tier == "quick" else 60], timeout=1800)
+    if rc != 0 and not os.path.exists(rp7):
+        cur = rp7 + ".current"
+        if rc in (-6, -11, 134, 139) and os.path.exists(cur):
+            import json as _json
+            case = _json.load(open(cur))
+            fails.append({"key": "node_process_died", "what": f"the process hosting the node died (exit {rc}) while this input was being handled: {se[-300:]}", "case": {"mode": "listener", "case": case}})
+            rep7 = {"evaluations": 0, "distinct": 0, "failures": [], "counters": {}, "samples": []}
+        else:
+            raise common.ToolError("node_fuzz failed: " + se[-800:])
+    else:
+        rep7 = common.load_report(rp7)
+        if any(f["key"] == "node_not_up" for f in rep7["failures"]):
+            raise common.ToolError("node_fuzz: the node under test never came up")
+        for f in rep7["failures"]:
+            f["case"] = {"mode": "listener", "case": f["case"]}
+        fails += rep7["failures"]
+        if not rep7["failures"] and rep7["counters"].get("stages_reached", 0) < 6:
+            raise common.ToolError(f"node_fuzz reached only {rep7['counters'].get('stages_reached')} of 6 stages: the honest prefixes do not work")
+    evals += rep7["evaluations"]
+    distinct += rep7["distinct"]
     cov = {"states": total_paths, "transitions": evals, "traces_validated_against_impl": rep1["evaluations"], "samples": samples[:4],
            "evaluations": evals, "distinct_nontrivial": distinct,
            "rule": f"mux: every path of <= {maxlen} frame headers over kind {{OPEN,DATA,CLOSE,both bits}} x side x id {{in range, first out of range, max}} x DATA "
@@ -61,12 +93,16 @@ def run(tier, seed):
                    "seeded mutations + truncations + random strings of 10 wire/storage types, 22 validly signed extreme consensus messages x {handler, inbound "
                    "queue}, 6 garbage inputs x {noise handshake, noise transport}",
            "exhaustive": False, "reaction_drift": drift,
-           "not_covered": "totality of every decoder over every byte string (sampled only); preface / RPC layer (crate-private, no harness); buffering limits are C14's flood scenario"}
+           "listener": {"paths": len(lcases), "inputs_played": rep7["evaluations"], "stages_reached": rep7["counters"].get("stages_reached", 0),
+                        "rule": "Listener.tla: stage {encryption frame, noise handshake, endpoint frame, identity handshake, mux handshake, mux frames} x malformed class "
+                                "{garbage, oversize length, truncated, empty, well-formed frame of another stage, hang-up} x endpoint; the honest prefix is performed "
+                                "for real against a running node over loopback TCP; after every input an honest configured peer must be admitted and the pools must drain"},
+           "not_covered": "totality of every decoder over every byte string (sampled only); RPC request bodies of the crate-private request types; buffering limits are C14's flood scenario"}
     common.write_evidence(PROP, tier, seed, "model_checking", cov,
                           ["harness is built with panic=unwind so that a panic of the code under test is observed instead of aborting the run",
                            "decoders are exercised through zksync_protobuf::decode of the public types only"], time.time() - t0, len(fails))
     common.handle_failures(PROP, fails, "adversarial_input")
-    log(f"[C10] ok: {total_paths} header paths, {evals} adversarial inputs, no panic")
+    log(f"[C10] ok: {total_paths} header paths, {len(lcases)} listener paths, {evals} adversarial inputs, no panic")
     return 0
 
 
@@ -76,6 +112,15 @@ def replay(path, seed):
     common.cargo_build()
     d = common.outdir(PROP)
     case = c["case"]
+    if isinstance(case, dict) and case.get("mode") == "listener":
+        cp = os.path.join(d, "replay_case.ndjson")
+        common.write_ndjson(cp, [case["case"]["case"]])
+        rp = os.path.join(d, "replay_report.json")
+        common.run_bin("node_fuzz", [cp, rp, case["case"].get("seed", seed), 20])
+        rep = common.load_report(rp)
+        common.handle_failures(PROP, rep["failures"], "replay_failure")
+        log("replay: no violation")
+        return 0
     if isinstance(case, dict) and case.get("mode") == "mux":
         cp = os.path.join(d, "replay_case.ndjson")
         common.write_ndjson(cp, [case["case"]])
